@@ -351,6 +351,14 @@ def text_of_use(rng, toks, H):
 
 def gen_case(rng, cfg, H):
     """a macro set with #undef/#define history, used in free token sequences: source text (str)"""
+    while True:
+        t = gen_case1(rng, cfg, H)
+        if len(t) <= 2500:          # (the scanner model tokenises in quadratic time)
+            return t
+        H["regenerated(too long)"] += 1
+
+
+def gen_case1(rng, cfg, H):
     nm = rng.choice([1, 2, 3, 4, 6, 8, 12])
     pool = rng.sample(OBJ, min(len(OBJ), (nm + 1) // 2 + 1)) + rng.sample(FUN, min(len(FUN), nm // 2 + 1))
     rng.shuffle(pool)
@@ -729,6 +737,25 @@ def only_strings_differ(X, r, s, modspace):
     return seen
 
 
+def defs_balanced(text):
+    """every #define line has balanced parentheses (the generator's main streams guarantee it; the shrinker must
+    not leave that class, or it ends in a different, recorded finding)"""
+    for ln in text.split("\n"):
+        if re.match(r"\s*#\s*define\b", ln):
+            d = 0
+            for m in TOKRE.finditer(ln):
+                w = m.group(0)
+                if w == "(":
+                    d += 1
+                elif w == ")":
+                    d -= 1
+                    if d < 0:
+                        return False
+            if d != 0:
+                return False
+    return True
+
+
 def classify(X, text, r, m, s):
     """the recorded finding a (real = model) != reference disagreement belongs to, or None"""
     ev, fl = m.notes, s.notes
@@ -823,7 +850,11 @@ def examine1(X, texts, label, expect=None, asan=None):
                     continue
             small, why2 = t, why
             if True:
+                keep_balanced = defs_balanced(t)
+
                 def bad(c):
+                    if keep_balanced and not defs_balanced(c):
+                        return False
                     rr, mm, ss = one(X, c)
                     if ss.err == "fuel" or mm.err == "fuel" or "dirInArgs" in ss.notes:
                         return False
@@ -951,8 +982,10 @@ def validate_spec(X, texts, label):
 
     def strip_pragmas(out):
         return b"\n".join(l for l in out.split(b"\n") if not l.lstrip().startswith(b"#pragma")) + b"\n"
-    GL = run_drv(X, [strip_pragmas(g[1]) for g in G], "lex")
-    CL = run_drv(X, [strip_pragmas(c[1]) for c in C], "lex") if have_clang else None
+    # the compilers' output contains no macro any more: the real scanner (through next(), which converts
+    # keywords) re-lexes it much faster than the scanner model (`lex` mode of the driver) would
+    GL = run_real(X, [strip_pragmas(g[1]) for g in G], "pp", plain=True)
+    CL = run_real(X, [strip_pragmas(c[1]) for c in C], "pp", plain=True) if have_clang else None
     n = dis = 0
     for i, t in enumerate(texts):
         s = S[i]
